@@ -77,6 +77,11 @@ pub struct Model {
     pub stats: ModelStats,
     /// true when t_acc_guar is tracked through applied read records (seq engine).
     pub track_reads: bool,
+    /// Keys with an insert that unwound from one of the caller's own value callbacks
+    /// (weigher, `V::clone`) -> the value ids of those inserts. Until the key is written or
+    /// invalidated again a lookup may observe nothing, one of these values, or what the
+    /// model holds; never anything older.
+    pub tainted: BTreeMap<u16, BTreeSet<u32>>,
 }
 
 impl Model {
@@ -89,6 +94,7 @@ impl Model {
             reinserted: BTreeSet::new(),
             cap_safe: true,
             pending_reads: Vec::new(),
+            tainted: BTreeMap::new(),
             last_inval_step: None,
             last_inval_removed: BTreeSet::new(),
             stats: ModelStats::default(),
@@ -151,7 +157,13 @@ impl Model {
         }
     }
 
+    /// `insert(k, vid)` unwound from the weigher or from `V::clone` (concurrent cache).
+    pub fn taint(&mut self, k: u16, vid: u32) {
+        self.tainted.entry(k).or_default().insert(vid);
+    }
+
     pub fn insert(&mut self, step: usize, k: u16, vid: u32, w: u32) {
+        self.tainted.remove(&k);
         let weight = self.weight_of(w);
         if let Some(g) = self.gone.remove(&k) {
             if matches!(
@@ -197,6 +209,7 @@ impl Model {
     }
 
     pub fn invalidate(&mut self, step: usize, k: u16) {
+        self.tainted.remove(&k);
         let mut removed = BTreeSet::new();
         if self.entries.remove(&k).is_some() {
             self.gone.insert(k, Gone::InvalidatedByKey);
@@ -255,6 +268,18 @@ impl Model {
     ) {
         let t = self.now;
         self.stats.lookups += 1;
+        if let Some(vs) = self.tainted.get(&k) {
+            // nothing, or a value of a failed insert (contains_key cannot tell which value it
+            // saw): accepted; any other value is judged as usual (MUST-NOT-SEE), and the
+            // MUST-SEE side is off for this key
+            let maybe = match got_vid {
+                Some(g) => vs.contains(&g),
+                None => true,
+            };
+            if !present || maybe {
+                return;
+            }
+        }
         let mut v = |rule: &str, msg: String| {
             out.push(Violation {
                 rule: rule.to_string(),
